@@ -30,6 +30,9 @@ type VueContext struct {
 	// v-once element tracking for deep clones
 	seen    map[string]bool
 	seenSeq int
+	// seenInline marks a template that was given as a string: its v-once IDs must not be those
+	// of the file whose name it carries (the string may include that very file)
+	seenInline bool
 
 	// SlotScope contains slot content for the current component.
 	SlotScope *SlotScope
@@ -117,5 +120,8 @@ func (ctx VueContext) Stack() *Stack {
 // iterations, repeated includes), distinct elements never share one.
 func (ctx *VueContext) nextSeenID() string {
 	ctx.seenSeq++
+	if ctx.seenInline {
+		return ctx.FromFilename + "#inline#" + strconv.Itoa(ctx.seenSeq)
+	}
 	return ctx.FromFilename + "#" + strconv.Itoa(ctx.seenSeq)
 }
